@@ -34,6 +34,13 @@ def _num(x):
         return repr(type(x))
 
 
+def _try_str(f):
+    try:
+        return str(f())
+    except Exception:
+        return "raises"
+
+
 def _try(f):
     try:
         return _num(f())
@@ -147,6 +154,12 @@ class Pool:
                 fp["grad"] = _try(lambda: o.gradient(vals[free[0]]))
             if hasattr(o, "FD_enabled"):
                 fp["fd"] = bool(o.FD_enabled)
+            if hasattr(o, "get_density"):
+                # what the object hands out for each variable (class and parameters of the factor it holds)
+                def _gd(nm):
+                    d = o.get_density(nm)
+                    return "%s%s" % (type(d).__name__, sorted(d.get_parameter_names()))
+                fp["densities"] = [_try_str(lambda nm=jg.name(v): _gd(nm)) for v in range(1, R.N + 1)]
         elif kind == "factor":
             v = e["v"]
             F = R.factors[v]
@@ -334,6 +347,22 @@ def replay_case(ctx, case, par, r, sweeps, seed):
                     hid["fp"] = pool.fingerprint(hid)
                     m2 = m(e["obj"])
                     new = (m2, "model", {}, e["v"], {"din": d})
+                elif act == "rename_original":
+                    # the name lives in the original; conditioned copies look it up there ("keeps the name of its original")
+                    root = e["obj"]
+                    newname = "w%d" % (pos + 2)
+                    root.name = newname
+                    e["root_name"] = newname
+                    for d in pool.objs:
+                        if d["kind"] == "composite" and d.get("root") is e:
+                            nm = d["obj"].name
+                            if nm != newname:
+                                ctx.mismatch("name/rename_original", c, "a conditioned copy does not carry the (new) name of its original",
+                                             newname, nm)
+                                return
+                    for d in pool.objs:            # names are part of the fingerprints: re-take them for this family
+                        if d is e or d.get("root") is e:
+                            d["fp"] = pool.fingerprint(d)
                 elif act == "bad_call":
                     # malformed calls are refused (C01); a refused call must not leave anything behind
                     for bad in (lambda: e["obj"](zz_unknown_variable=np.ones(1)),
@@ -398,6 +427,8 @@ def replay_case(ctx, case, par, r, sweeps, seed):
             obj, kind, fixed, v, extra = new
             ent = {"obj": obj, "kind": kind, "fixed": dict(fixed), "v": v, "hidden": False}
             ent.update(extra)
+            if kind == "composite":
+                ent["root"] = e.get("root", e)
             ent["fp"] = pool.fingerprint(ent)
             pool.objs.append(ent)
             specidx.append(len(pool.objs) - 1)
